@@ -368,6 +368,24 @@ def first_print_shapes(repo):
     nwidth = fw.count('prependname_width = std::cmp::max( prependname_width, unicode_width::UnicodeWidthStr::width(')
     if nwidth != 2:
         raise GenError("s4.rs processing_loop: prependname_width is not the max of UnicodeWidthStr::width over the printed names (2 sites)")
+    # (1b) WHICH names the width ranges over: the sources with a message (`pathid_with_logmessages`), or all of them
+    loop_printing = 'for pathid in pathid_with_logmessages.iter() { let path = match map_pathid_path.get(pathid) { Some(path_) => path_, None => continue, };'
+    n_printing = 0
+    n_other = 0
+    for m in re.finditer(r'prependname_width = std::cmp::max\( prependname_width, unicode_width::UnicodeWidthStr::width\(', fw):
+        head = fw[:m.start()]
+        i_for = head.rfind('for ')
+        seg = head[i_for:]
+        if seg.startswith(loop_printing) and seg[len(loop_printing):].count('{') == seg[len(loop_printing):].count('}'):
+            n_printing += 1
+        else:
+            n_other += 1
+    if (n_printing, n_other) == (2, 0):
+        over_printing = True
+    elif n_printing == 0:
+        over_printing = False
+    else:
+        raise GenError("s4.rs processing_loop: the -n and -p alignment widths range over different sets of sources")
     # (2) the prepend separator inside the strftime format
     lit = 'Some(ref s) => Some(s.to_owned() + cli_prepend_separator.replace(\'%\', "%%").as_str()),'
     raw = 'Some(ref s) => Some(s.to_owned() + cli_prepend_separator.as_str()),'
@@ -377,11 +395,11 @@ def first_print_shapes(repo):
         sep_literal = False
     else:
         raise GenError("s4.rs processing_loop: prepend_date_format is neither fmt + separator nor fmt + separator.replace('%', \"%%\")")
-    return by_cols[0], sep_literal
+    return by_cols[0], sep_literal, over_printing
 
 
 def generate(repo):
-    align_cols, sep_literal = first_print_shapes(repo)
+    align_cols, sep_literal, align_printing = first_print_shapes(repo)
     src = strip_comments(open(os.path.join(repo, 'src/printer/printers.rs')).read())
     m = re.search(r'\bconst\s+BUFFER_CAP\s*:\s*usize\s*=\s*([^;]+);', src)
     if not m:
@@ -494,6 +512,8 @@ def generate(repo):
     L.append('`prependname_width - UnicodeWidthStr::width(name)` spaces (`true`), or `format!("{0:<1$}", name, width)`,')
     L.append('which pads by `char` count (`false`); `prependname_width` is the max display width of the printed names -/')
     L.append(f'def ALIGN_PADS_BY_COLUMNS : Bool := {b(align_cols)}')
+    L.append('/-- the `-w` width is the maximum over the sources that have a message at first print (`pathid_with_logmessages`), not over every source -/')
+    L.append(f'def ALIGN_OVER_PRINTING_SOURCES : Bool := {b(align_printing)}')
     L.append('/-- the datetime field is strftime(format ++ separator with every `%` doubled) (`true`: the separator is')
     L.append('literal text) or strftime(format ++ separator) (`false`: a `%` in the separator is interpreted) -/')
     L.append(f'def PREPEND_SEPARATOR_LITERAL : Bool := {b(sep_literal)}')
